@@ -706,6 +706,11 @@ impl Actor {
             }
         };
 
+        // Stop accepting requests and drop the ones that are still queued, so that their senders
+        // see an error instead of waiting forever for a reply that will never come.
+        self.action_rx.close();
+        while self.action_rx.try_recv().is_ok() {}
+
         if let Err(cause) = self.store.flush() {
             warn!(?cause, "failed to flush store");
         }
